@@ -124,6 +124,11 @@ fn other(r: Role) -> Role {
 
 /// Runs `role`'s handshake up to the answer to the given peer packet 1; returns (own p0+p1, p2).
 fn answer_to(role: Role, peer_p1: &[u8], seed: u64) -> Result<(Vec<u8>, Vec<u8>), String> {
+    answer_to_with_extra(role, peer_p1, seed, 0)
+}
+
+/// As `answer_to`, with `extra` further peer bytes (the start of its packet 2) in the same call.
+fn answer_to_with_extra(role: Role, peer_p1: &[u8], seed: u64, extra: usize) -> Result<(Vec<u8>, Vec<u8>), String> {
     set_fill(Some(FillSpec { seed, forced_p1: vec![] }));
     let r = guarded(|| {
         let mut h = Handshake::new(peer_type(role));
@@ -133,9 +138,15 @@ fn answer_to(role: Role, peer_p1: &[u8], seed: u64) -> Result<(Vec<u8>, Vec<u8>)
         }
         let mut input = vec![3u8];
         input.extend_from_slice(peer_p1);
+        input.extend(std::iter::repeat(0x77u8).take(extra));
         match h.process_bytes(&input).map_err(|e| format!("{:?}", e))? {
             HandshakeProcessResult::InProgress { response_bytes } => out.extend(response_bytes),
-            HandshakeProcessResult::Completed { .. } => return Err("completed after packet 1 only".to_string()),
+            HandshakeProcessResult::Completed { response_bytes, .. } => {
+                if extra < 1536 {
+                    return Err("completed before the peer's packet 2 was complete".to_string());
+                }
+                out.extend(response_bytes)
+            }
         }
         Ok(out)
     });
@@ -349,6 +360,78 @@ pub fn run(run: &Run) {
         }
     });
     run.count("near_miss_packets_echoed", near_ok.load(Ordering::Relaxed));
+
+    // ---- 2d. the answer does not depend on what else is already buffered behind packet 1 ----
+    let extra_ok = AtomicU64::new(0);
+    for role in [Role::Client, Role::Server] {
+        for extra in [1usize, 700, 1535, 1536, 1600] {
+            for digestless in [false, true] {
+                evals.fetch_add(1, Ordering::Relaxed);
+                let p1 = if digestless { vec![0x5Au8; 1536] } else { build_peer_p1(other(role), 0, 300, 0, 99) };
+                let replay = json!({"role": format!("{:?}", role), "digestless": digestless, "further_peer_bytes_in_the_same_call": extra, "peer_packet1": hex(&p1)});
+                match answer_to_with_extra(role, &p1, 9, extra) {
+                    Err(e) => run.violation(&format!("C11/packet2-not-produced/{:?}/with-further-bytes", role), &format!("{} ({} further bytes in the call)", e, extra), replay),
+                    Ok((_o, p2)) => {
+                        let ok = if digestless {
+                            p2 == p1
+                        } else {
+                            let off = digest_offset(&p1, 0);
+                            let k = hmac_sha256(&full_key(role), &p1[off..off + 32]);
+                            hmac_sha256(&k, &p2[..1504])[..] == p2[1504..]
+                        };
+                        if !ok {
+                            run.violation(&format!("C11/packet2-wrong-with-further-bytes/{:?}/{}", role, if digestless { "echo" } else { "signature" }), &format!("with {} further peer bytes in the same call packet 2 is not {}", extra, if digestless { "an exact echo of the digest-less packet 1" } else { "validly signed" }), replay);
+                        } else {
+                            extra_ok.fetch_add(1, Ordering::Relaxed);
+                        }
+                    }
+                }
+            }
+        }
+    }
+    run.count("packet2_correct_with_further_buffered_bytes", extra_ok.load(Ordering::Relaxed));
+
+    // ---- 2e. every packet 1 an object generates is valid, not only its first ----
+    let regen_ok = AtomicU64::new(0);
+    for role in [Role::Client, Role::Server] {
+        for (s1, s2) in [(0usize, 500usize), (727, 3), (100, 828), (1020, 0)] {
+            for implicit_first in [false, true] {
+                evals.fetch_add(1, Ordering::Relaxed);
+                let base = if role == Role::Client { 0 } else { 764 };
+                let forced = |sum: usize| -> Vec<(usize, u8)> { let b = split_sum(sum, 0); (0..4).map(|i| (base + i, b[i])).collect() };
+                let r = guarded(|| {
+                    let mut h = Handshake::new(peer_type(role));
+                    set_fill(Some(FillSpec { seed: 21, forced_p1: forced(s1) }));
+                    let first = if implicit_first {
+                        match h.process_bytes(&[]) {
+                            Ok(HandshakeProcessResult::InProgress { response_bytes }) => response_bytes,
+                            _ => Vec::new(),
+                        }
+                    } else {
+                        h.generate_outbound_p0_and_p1().unwrap_or_default()
+                    };
+                    set_fill(Some(FillSpec { seed: 22, forced_p1: forced(s2) }));
+                    let second = h.generate_outbound_p0_and_p1().unwrap_or_default();
+                    set_fill(None);
+                    (first, second)
+                });
+                set_fill(None);
+                let replay = json!({"role": format!("{:?}", role), "first_pointer_sum": s1, "second_pointer_sum": s2, "first_generation_implicit_in_process_bytes": implicit_first});
+                match r {
+                    Err(p) => run.violation("C11/packet1-generation-failed", &p, replay),
+                    Ok((first, second)) => {
+                        let valid = |out: &Vec<u8>| out.len() == 1537 && out[0] == 3 && (digest_valid_at(&out[1..], digest_offset(&out[1..], 0), short_key(role)) || digest_valid_at(&out[1..], digest_offset(&out[1..], 1), short_key(role)));
+                        if !valid(&first) || !valid(&second) {
+                            run.violation(&format!("C11/own-packet1-digest-invalid/{:?}/repeated-generation", role), &format!("packets 1 generated by one handshake object: first valid: {}, second valid: {} (pointer sums {} then {})", valid(&first), valid(&second), s1, s2), replay);
+                        } else {
+                            regen_ok.fetch_add(1, Ordering::Relaxed);
+                        }
+                    }
+                }
+            }
+        }
+    }
+    run.count("repeated_generation_valid", regen_ok.load(Ordering::Relaxed));
 
     // ---- 3. digest-less packet 1: exact echo ----
     for role in [Role::Client, Role::Server] {
